@@ -62,7 +62,7 @@ RULE = ("random type-directed pipelines over catalogue methods supported by Pand
 SUITES = [
     # the PostgreSQL dialect text executed on the stand-in engine (SQLite 3.40: native RIGHT/FULL JOIN, WITH) vs the model,
     # under every use_with / use_cte_elim / merge combination the dialect allows
-    with_oracle(K5SemOpt, oracles.oracle_C02, every=1, ignore_kinds=("pandas-raised",)),
+    with_oracle(K5SemOpt, oracles.oracle_C02, every=1, ignore_kinds=("pandas-raised",), corpus_dir="C02"),
     K5Near(dialects=("postgres",)),
     K4Sem(),
 ]
